@@ -218,6 +218,7 @@ def _run_ui(trace, prop, seed=None):
         sub.compare()
     if ui.store.overshoot:
         res.probes["batch overshoot: step() calls after done"] += ui.store.overshoot
+    sub.close()
     res.sim["simulated_ms"] += int(ui.loop.now)
     res.sim["events"] += len(events)
     res.sim["timers_fired"] += ui.loop.fired
@@ -526,6 +527,7 @@ def _run_api(trace, prop):
             sub.compare()
     if not sub.dead:
         sub.compare()
+    sub.close()
     res.sim["calls"] += len(trace["ops"])
     res.sim["steps"] += steps
     res.sim["simulated_ms"] += int(CLOCK.sim_ms)
